@@ -199,7 +199,7 @@ def one_run(seed, run, force_config=None, overrides=None, max_diag=3):
     res["hows"] = dict(collections.Counter(program[i]["how"] for i in dups))
     res["dup_kinds"] = dict(collections.Counter(
         type(engine._deref(env, program[i]["o"])).__name__ for i in dups if is_object_slot(engine._deref(env, program[i]["o"]))))
-    res["mutable_objs"] = sum(1 for v in env.heap if is_object_slot(v) and getattr(v, "__dict__", {}).get("immutable", True) is False)
+    res["mutable_objs"] = sum(1 for v in env.heap if is_object_slot(v) and lib.state(v).get("immutable", True) is False)
 
     plan = trace = None
     if config != "seq":
@@ -212,7 +212,7 @@ def one_run(seed, run, force_config=None, overrides=None, max_diag=3):
             if op["op"] not in ("call", "join"):
                 return False
             r = engine._deref(env, op["r"])
-            return is_object_slot(r) and getattr(r, "__dict__", {}).get("immutable", True) is False
+            return is_object_slot(r) and lib.state(r).get("immutable", True) is False
         plan["faults"] = [f for f in plan["faults"] if not _mut_recv(f["op"])]
         if config == "seq-fault" and dups and rng.random() < 0.7:
             # place a fault inside a duplication event
@@ -238,7 +238,7 @@ def one_run(seed, run, force_config=None, overrides=None, max_diag=3):
     seen = set()
     for victim, d, a, r in bad[:max_diag]:
         vobj = env.heap[victim]
-        is_mut = is_object_slot(vobj) and getattr(vobj, "__dict__", {}).get("immutable", True) is False
+        is_mut = is_object_slot(vobj) and lib.state(vobj).get("immutable", True) is False
         # attribution: the same history with every dup replaced by the identity
         if not is_mut:
             p_id = with_identity_dups(program)
@@ -338,7 +338,7 @@ def restart_task(seed, run):
     o = envp.heap[k]
     if not is_object_slot(o):
         return None
-    if getattr(o, "__dict__", {}).get("immutable", True) is False:
+    if lib.state(o).get("immutable", True) is False:
         return None  # mutable-mode chains are judged in-process only
     proto = rr.randint(2, 5)
     try:
@@ -347,7 +347,7 @@ def restart_task(seed, run):
         return {"run": run, "k": k, "program": program, "st": st, "pickle_error": type(e).__name__ + ": " + str(e)[:200]}
     def _mut(i):
         v = env.heap[i]
-        return isinstance(v, MutableAlias) or (is_object_slot(v) and getattr(v, "__dict__", {}).get("immutable", True) is False)
+        return isinstance(v, MutableAlias) or (is_object_slot(v) and lib.state(v).get("immutable", True) is False)
 
     # mutable-mode chains are judged in-process only (their slots alias one evolving object)
     dependents = [i for i in range(len(program)) if (i == k or k in lang.cone(program, i)) and not _mut(i)]
